@@ -209,6 +209,8 @@ func (env *SpecEnv) eval(x *SExpr) *SV {
 		return env.evalCall(x)
 	case "forall", "exists":
 		return env.evalQuant(x)
+	case "forallin", "existsin":
+		return env.evalQuantIn(x)
 	case "is":
 		a := env.eval(x.Args[0])
 		t := e.resolveType(x.TypeX, env.pkg)
@@ -830,7 +832,15 @@ func (env *SpecEnv) evalCall(x *SExpr) *SV {
 			case *types.Slice:
 				return mathSV(a.V.L[2])
 			case *types.Map:
-				return mathSV(e.mapLenFacts(env.st, t, a.V.L[0]))
+				hs := env.state()
+				if hs == env.st {
+					return mathSV(e.mapLenFacts(env.st, t, a.V.L[0]))
+				}
+				// length in the old state: facts go to the current path condition
+				tmp := &State{pc: "true", heap: hs.heap, locals: hs.locals, regs: hs.regs}
+				ln := e.mapLenFacts(tmp, t, a.V.L[0])
+				e.assume(env.st, tmp.pc)
+				return mathSV(ln)
 			case *types.Basic:
 				if env.fx != nil {
 					return mathSV(env.fx.strLen(a.V.L[0]))
@@ -887,6 +897,43 @@ func (env *SpecEnv) evalCall(x *SExpr) *SV {
 				return boolSV(eq(cur, "2"))
 			}
 			return boolSV(not(eq(cur, "0")))
+		case "isa":
+			a := env.eval(args[0])
+			if a == nil || a.T == nil {
+				return boolSV("false")
+			}
+			pt, ok := a.T.Underlying().(*types.Pointer)
+			if !ok {
+				env.errorf("isa() needs a pointer")
+				return boolSV("false")
+			}
+			k := e.keyIsA(pt.Elem())
+			if k == "" {
+				env.errorf("isa(): type %s is not declared `tracked`", pt.Elem())
+				return boolSV("false")
+			}
+			return boolSV(sel(e.heapGet(env.state(), k), a.V.L[0]))
+		case "lockinv":
+			a := env.eval(args[0])
+			if a == nil || a.V.Loc == nil {
+				env.errorf("lockinv() needs a lock field")
+				return boolSV("false")
+			}
+			class := lockClassOf(a.V.Loc)
+			only := map[string]bool{}
+			for _, x := range args[1:] {
+				if x.Op == "str" {
+					only[x.Name] = true
+				}
+			}
+			var cs []string
+			for _, li := range e.w.spec.LockInvs[class] {
+				if len(only) > 0 && !only[li.Name] {
+					continue
+				}
+				cs = append(cs, e.evalClauseOn(li.Clause, env.state(), env.old, a.V.Loc.Ref, env.fx))
+			}
+			return boolSV(and(cs...))
 		case "typeis":
 			// typeis(x, T)
 			a := env.eval(args[0])
@@ -1098,4 +1145,85 @@ func (env *SpecEnv) pureCall(f *ssa.Function, recv *SV, args []*SExpr) *SV {
 		rt = res.At(0).Type()
 	}
 	return &SV{V: rv, T: rt}
+}
+
+// evalQuantIn: quantification over the elements of a slice (by absolute position, so that the pattern contains no
+// arithmetic) or over the entries of a map.
+func (env *SpecEnv) evalQuantIn(x *SExpr) *SV {
+	e := env.e
+	coll := env.eval(x.Args[0])
+	if coll == nil || coll.T == nil {
+		env.errorf("cannot evaluate collection in %q", x.Src)
+		return boolSV("false")
+	}
+	st := env.state()
+	e.nq++
+	kv := fmt.Sprintf("k!b%d", e.nq)
+	q := "forall"
+	if x.Op == "existsin" {
+		q = "exists"
+	}
+	n := env
+	var guard, pat string
+	var ks Sort = SInt
+	switch t := coll.T.Underlying().(type) {
+	case *types.Slice:
+		arr, off, ln := coll.V.L[0], coll.V.L[1], coll.V.L[2]
+		elem := &Val{}
+		for j := range e.fl.leaves(t.Elem()) {
+			elem.L = append(elem.L, sel(sel(e.heapGet(st, e.keyElem(t.Elem(), j)), arr), kv))
+		}
+		idx := kv
+		if off != "0" {
+			idx = "(- " + kv + " " + off + ")"
+		}
+		if len(x.Binders) == 2 {
+			n = n.with(x.Binders[0].Name, mathSV(idx))
+			n = n.with(x.Binders[1].Name, &SV{V: elem, T: t.Elem()})
+		} else {
+			n = n.with(x.Binders[0].Name, &SV{V: elem, T: t.Elem()})
+		}
+		hi := "(+ " + off + " " + ln + ")"
+		if off == "0" {
+			hi = ln
+		}
+		guard = and("(<= "+off+" "+kv+")", "(< "+kv+" "+hi+")")
+		if len(elem.L) > 0 {
+			pat = elem.L[0]
+		}
+	case *types.Map:
+		ks, _ = e.mapSorts(t)
+		mref := coll.V.L[0]
+		dom := e.mapDom(st, t, mref)
+		_, vl := e.mapSorts(t)
+		val := &Val{}
+		for j := range vl {
+			val.L = append(val.L, sel(sel(e.heapGet(st, e.keyMapVal(t, j)), mref), kv))
+		}
+		n = n.with(x.Binders[0].Name, &SV{V: scalar(kv), T: t.Key()})
+		if len(x.Binders) == 2 {
+			n = n.with(x.Binders[1].Name, &SV{V: val, T: t.Elem()})
+		}
+		guard = sel(dom, kv)
+		pat = guard
+	default:
+		env.errorf("quantification over %s is not supported (%q)", coll.T, x.Src)
+		return boolSV("false")
+	}
+	e.c.inQuant++
+	body := n.eval(x.Args[1])
+	e.c.inQuant--
+	if body == nil || len(body.V.L) != 1 {
+		return boolSV("false")
+	}
+	bt := body.V.L[0]
+	if q == "forall" {
+		bt = implies(guard, bt)
+	} else {
+		bt = and(guard, bt)
+	}
+	if pat != "" {
+		bt = "(! " + bt + " :pattern (" + pat + "))"
+	}
+	return boolSV(fmt.Sprintf("(%s ((%s %s)) %s)", q, kv, ks, bt))
 }
